@@ -119,7 +119,52 @@ def case_system(case):
         raise Violation("base_unit_entry_points_disagree", f"{x} {u} under {s}: {[(t, str(m)[:30], un) for t, m, un in results]}")
 
 
+NONMULT = {"degree_Celsius": (Fraction(1), Fraction(27315, 100)), "degree_Fahrenheit": (Fraction(5, 9), Fraction(45967, 180)), "degree_Reaumur": (Fraction(5, 4), Fraction(27315, 100))}
+
+
+def case_system_nonmult(case):
+    """offset units under every default system: to_base_units and its in-place twin give the absolute temperature in kelvin (no system
+    replaces kelvin), for scalars and ndarrays alike"""
+    import numpy as np
+
+    s, u, x = case["system"], case["unit"], Fraction(case["x"])
+    ureg = env.ureg("Fraction")
+    scale, off = NONMULT[u]
+    want = x * scale + off
+    old = ureg.default_system
+    try:
+        ureg.default_system = s
+        a = ureg.Quantity(x, u).to_base_units()
+        b = ureg.Quantity(x, u)
+        b.ito_base_units()
+        for tag, q in (("to_base_units", a), ("ito_base_units", b)):
+            back = float(q.to("kelvin").magnitude)  # (atomic and Planck systems replace kelvin: the value is judged in kelvin)
+            if abs(back - float(want)) > 1e-9 * float(want):
+                raise Violation(f"base_units_of_offset_unit:{tag}", f"Q({x},{u}).{tag}() under system {s} = {q.magnitude!r} {dict(q._units)} = {back} kelvin, expected {want} kelvin")
+        if dict(a._units) != dict(b._units) or a.magnitude != b.magnitude:
+            raise Violation("base_units_of_offset_unit:in_place_differs", f"Q({x},{u}) under system {s}: to_base_units {a.magnitude!r} {dict(a._units)}, ito_base_units {b.magnitude!r} {dict(b._units)}")
+        fl = env.ureg("float")
+        o2 = fl.default_system
+        try:
+            fl.default_system = s
+            arr = fl.Quantity(np.array([float(x), 0.0]), u)
+            c = arr.to_base_units()
+            arr.ito_base_units()
+            for tag, q in (("to_base_units:ndarray", c), ("ito_base_units:ndarray", arr)):
+                if not np.allclose(q.to("kelvin").magnitude, [float(want), float(off)], rtol=1e-9):
+                    raise Violation(f"base_units_of_offset_unit:{tag}", f"{u} under {s}: {q.magnitude!r} {dict(q._units)}")
+        finally:
+            fl.default_system = o2
+    finally:
+        ureg.default_system = old
+
+
 def run_systems(task, tier, seed, col):
+    if task["shard"] == 0:
+        for u in NONMULT:
+            for s_ in [None] + list(env.R().systems):
+                col.case(("syn", u, s_), True, sample={"unit": u, "system": s_}, cls="offset_unit")
+                col.run_case(case_system_nonmult, {"system": s_, "unit": u, "x": Fraction(25)})
     R = env.R()
     names = env.unit_names("mult")
     systems = [None] + list(R.systems)
@@ -460,4 +505,6 @@ def run_task(task, tier, seed, col):
 
 
 def replay(sub, case):
+    if sub == "systems" and case.get("unit") in NONMULT:
+        return case_system_nonmult(case)
     return {"systems": case_system, "compound": case_compound, "attrs": case_attr, "gensys": case_gensys, "groups": case_groups}[sub](case)
